@@ -323,6 +323,22 @@ func parsePCR(i *astikit.BytesIterator) (cr *ClockReference, err error) {
 }
 
 func writePacket(w *astikit.BitsWriter, p *Packet, targetPacketSize int) (written int, retErr error) {
+	// Make sure the payload fits before writing anything, so that a rejected packet leaves nothing in the output
+	available := targetPacketSize - 1 - mpegTsPacketHeaderSize
+	if p.Header.HasAdaptationField {
+		available--
+		if !p.AdaptationField.IsOneByteStuffing {
+			available -= int(calcPacketAdaptationFieldLength(p.AdaptationField))
+		}
+	}
+	if available < len(p.Payload) {
+		return 0, fmt.Errorf(
+			"writePacket: can't write %d bytes of payload: only %d is available",
+			len(p.Payload),
+			available,
+		)
+	}
+
 	if retErr = w.Write(uint8(syncByte)); retErr != nil {
 		return
 	}
@@ -340,14 +356,6 @@ func writePacket(w *astikit.BitsWriter, p *Packet, targetPacketSize int) (writte
 			return
 		}
 		written += n
-	}
-
-	if targetPacketSize-written < len(p.Payload) {
-		return 0, fmt.Errorf(
-			"writePacket: can't write %d bytes of payload: only %d is available",
-			len(p.Payload),
-			targetPacketSize-written,
-		)
 	}
 
 	if p.Header.HasPayload {
